@@ -328,8 +328,8 @@ func ApplyRuleEdit(t *rapid.T, name string, doc map[string]any, info *SpecInfo) 
 			req, _ := d["required"].([]any)
 			conflict := false
 			for _, r := range req {
-				if r == "ghostProperty" || r == "satisfiedGhost" {
-					conflict = true // an earlier edit relies on this definition staying closed
+				if rs, isStr := r.(string); isStr && (strings.HasPrefix(rs, "ghost") || rs == "satisfiedGhost") {
+					conflict = true // an earlier edit relies on this definition staying as it is
 				}
 			}
 			if conflict {
